@@ -11,8 +11,11 @@ for f in os.listdir(out):
         shutil.copy(p, d)
     elif os.path.isdir(p) and f == "demo":
         shutil.copytree(p, os.path.join(d, "demo"), dirs_exist_ok=True, ignore=shutil.ignore_patterns("target"))
-conf = subprocess.run(["/verif/tools/confirm_seed.py", os.path.dirname(out.rstrip("/")).replace(".out", "") if False else sys.argv[3].split(".out")[0], out],
-                      stdout=subprocess.PIPE, text=True).stdout.strip().split("\n")[0] if os.path.exists(os.path.join(out, "demo.rs")) else "{}"
+conf = "{}"
+key = os.path.basename(out.rstrip("/").split(".out")[0]) + " " + os.path.basename(out.rstrip("/"))
+for line in open("/tmp/mut/confirm.log") if os.path.exists("/tmp/mut/confirm.log") else []:
+    if line.startswith(key + " "):
+        conf = line[len(key) + 1:].strip()
 meta = dict(breaks_property=prop, base_commit=subprocess.run(["git", "-C", "/repo", "rev-parse", "HEAD"], stdout=subprocess.PIPE, text=True).stdout.strip(),
             needs_to_manifest=needs, confirmed=json.loads(conf or "{}"),
             confirmed_by="tools/confirm_seed.py in a scratch worktree: `cargo test --workspace --no-fail-fast --offline --lib --tests` with the patch (57 pass), demo.rs as miniconf/tests/seed_demo.rs fails with the patch and passes without",
